@@ -302,7 +302,10 @@ def finish(ctx: Ctx) -> int:
             nreal += 1
             real.setdefault(sig, detail)
     for sig, n in sorted(seen_known.items()):
-        print(f"KNOWN-FINDING: property={ctx.pid} {sig}: {known[sig].get('what', '')} [{n} case(s) this run]")
+        what = " ".join(str(known[sig].get("what", "")).split())
+        if len(what) > 220:
+            what = what[:217] + "..."
+        print(f"KNOWN-FINDING: property={ctx.pid} {sig}: {what} [{n} case(s) this run]")
     rc = 0
     for sig, detail in list(sorted(real.items()))[:25]:
         path = write_replay(ctx.pid, sig, detail)
